@@ -436,6 +436,15 @@ pub fn check(c: &Case) -> Outcome {
                 break;
             }
         }
+        // a pair none of whose operations fails alone, but one of whose operations is a listed finding of this clause,
+        // lies inside that finding's affected region (the table already contains an entry the reader is known to
+        // mishandle): it is attributed to the listed operation, not reported as a new class
+        let class = class.or_else(|| {
+            full.applied.iter().find(|a| KNOWN.get().map(|k| k.contains(&format!("{clause}|{a}"))).unwrap_or(false)).map(|a| {
+                o.label("pair-attributed-to-listed-operation");
+                a.to_string()
+            })
+        });
         let class = class.unwrap_or_else(|| {
             let mut a = full.applied.clone();
             a.sort();
